@@ -64,7 +64,7 @@ contract Proxy.ServeHTTP
   ensures[C12] @success_leaves_status_200 (defined(scrapErr) && scrapErr == nil && stopReason == "") ==> statusOf(w) == 200
   modifies target.ScrapeStatus.*, tkestack.io/kvass/pkg/scrape.Scraper.*, tkestack.io/kvass/pkg/scrape.StatisticsSeriesResult.*, tkestack.io/kvass/pkg/scrape.MetricSamplesInfo.*,
            mapof(tkestack.io/kvass/pkg/scrape.StatisticsSeriesResult.MetricsTotal), elems(target.ScrapeStatus.lastSeries) at {},
-           gOutLen, gOutData, gCode, gAborted, gStreamOK, gAttempts, gStatusUpdates, gKept, gMetricTotal, gMetricScraped, gClock, github.com/klauspost/compress/gzip.Reader.gInPool,
+           gOutLen, gOutData, gCode, gAborted, gStreamOK, gSrcReads, gSrcFailed, gAttempts, gStatusUpdates, gKept, gMetricTotal, gMetricScraped, gClock, github.com/klauspost/compress/gzip.Reader.gInPool,
            tkestack.io/kvass/pkg/scrape.wrappedReader.* at {}, net/http.Response.* at {}, net/http.Request.* at {}, elems(tkestack.io/kvass/pkg/scrape.Scraper.writer) at {}
 
 // ---------- the target manager (C10) ----------
